@@ -10,6 +10,9 @@ open TPV TPV.Proto TPV.Fourier
       reply: ΠN·C floats = `Fourier.layer` evaluated at every grid point / channel
   fno <shape> Cin C Cout <upW> <upb> nLayers (<modes> lin skip <kern> <W> <b> act)* <downW> <downb> <x>
       reply: ΠN·Cout floats.  Layer outputs are tabulated between the layers (evaluation strategy only).
+  fnonamed fix|select <src vars> <dst vars> <shape> … as fno …   (vars: n name dim name dim …)
+      the input has vdim(src) channels laid out by `src`; `fix` = Model._fix_points_order to the input space `dst`,
+      `select` = points[..., dst names] (Parallel); reply as fno, or err:names (ValueError / KeyError)
   prog lin skip
       reply: the contents of the `points` and `kernel` buffers after `forwardProg` and the returned
       value, as symbolic terms
@@ -88,6 +91,53 @@ def rawLayer (withAct : Bool) : P (RawLayer × String) := do
   let act ← if withAct then next else pure "id"
   return ({ modes, lin, skip, kern, W, b }, act)
 
+def var : P (String × Nat) := do
+  let v ← next; let d ← nat
+  return (v, d)
+
+/-- the rest of an `fno` / `fnonamed` request after the shape.  `named = some (fix?, src, dst)`: the input
+    has `vdim src` channels laid out by `src` and goes through `fixOrder` resp. `selectVars` first -/
+def fnoRequest (shape : List Nat) (named : Option (Bool × Vars × Vars)) : P String := do
+  let Cin ← nat; let C ← nat; let Cout ← nat
+  let upW ← many float; let upb ← many float
+  let layers ← many (rawLayer true)
+  let downW ← many float; let downb ← many float
+  let x ← many float
+  match splitShape shape with
+  | none => return "err:shape"
+  | some (pre, last) =>
+    if shape.any (· = 0) || C = 0 || Cin = 0 || Cout = 0 then return "err:size"
+    if upW.length ≠ C * Cin || upb.length ≠ C || downW.length ≠ Cout * C || downb.length ≠ Cout then
+      return "bad-op updown-len"
+    let CinData := match named with
+      | none => Cin
+      | some (_, src, _) => vdim src
+    if x.length ≠ prod shape * CinData then return "bad-op x-len"
+    for (raw, act) in layers do
+      match checkLayer shape C raw with
+      | some e => return e
+      | none => if (actOf act).isNone then return "bad-op act"
+    let x0 := fieldOf shape CinData x.toArray
+    let xin : Option (Idx → Nat → Float) := match named with
+      | none => some x0
+      | some (true, src, dst) => fixOrder src dst x0
+      | some (false, src, dst) => (selectVars src dst x0).bind (fixOrder dst dst)
+    match xin, named with
+    | none, _ => return "err:names"
+    | some xin, named =>
+      if let some (_, _, dst) := named then
+        if vdim dst ≠ Cin then return "err:channels"
+      let up : (Nat → Float) → (Nat → Float) := linear Cin (matOf Cin upW.toArray) (vecOf upb.toArray)
+      let down : (Nat → Float) → (Nat → Float) := linear C (matOf C downW.toArray) (vecOf downb.toArray)
+      let mut cur := tabulate shape C (pointwise up xin)
+      for (raw, act) in layers do
+        let a := (actOf act).getD id
+        let L := mkLayer C raw
+        -- one step of `fnoBody`, tabulated
+        cur := tabulate shape C (fnoBody pre last C [(L, a)] (fieldOf shape C cur))
+      let out := tabulate shape Cout (pointwise down (fieldOf shape C cur))
+      return showFloats out
+
 /-- symbolic tensor operations for `prog` -/
 def symOps : Ops String :=
   { rfftn := fun a => s!"rfftn({a})", pad := fun a => s!"pad({a})", mul := fun a b => s!"mul({a},{b})",
@@ -113,32 +163,14 @@ def step (line : String) : String :=
           let out := tabulate shape C (layer pre last C L (fieldOf shape C x.toArray))
           return showFloats out
     | "fno" => do
-      let shape ← many nat; let Cin ← nat; let C ← nat; let Cout ← nat
-      let upW ← many float; let upb ← many float
-      let layers ← many (rawLayer true)
-      let downW ← many float; let downb ← many float
-      let x ← many float
-      match splitShape shape with
-      | none => return "err:shape"
-      | some (pre, last) =>
-        if shape.any (· = 0) || C = 0 || Cin = 0 || Cout = 0 then return "err:size"
-        if upW.length ≠ C * Cin || upb.length ≠ C || downW.length ≠ Cout * C || downb.length ≠ Cout then
-          return "bad-op updown-len"
-        if x.length ≠ prod shape * Cin then return "bad-op x-len"
-        for (raw, act) in layers do
-          match checkLayer shape C raw with
-          | some e => return e
-          | none => if (actOf act).isNone then return "bad-op act"
-        let up : (Nat → Float) → (Nat → Float) := linear Cin (matOf Cin upW.toArray) (vecOf upb.toArray)
-        let down : (Nat → Float) → (Nat → Float) := linear C (matOf C downW.toArray) (vecOf downb.toArray)
-        let mut cur := tabulate shape C (pointwise up (fieldOf shape Cin x.toArray))
-        for (raw, act) in layers do
-          let a := (actOf act).getD id
-          let L := mkLayer C raw
-          -- one step of `fnoBody`, tabulated
-          cur := tabulate shape C (fnoBody pre last C [(L, a)] (fieldOf shape C cur))
-        let out := tabulate shape Cout (pointwise down (fieldOf shape C cur))
-        return showFloats out
+      let shape ← many nat
+      fnoRequest shape none
+    | "fnonamed" => do
+      let mode ← next
+      let src ← many var; let dst ← many var
+      let shape ← many nat
+      if mode ≠ "fix" && mode ≠ "select" then return "bad-op mode"
+      fnoRequest shape (some (mode == "fix", src, dst))
     | "prog" => do
       let lin ← bool; let skip ← bool
       let s := runProg (initStore "p" "k" "junk") (forwardProg symOps lin skip)
